@@ -13,7 +13,7 @@ RULE = ('the C07 histories with an attacher installed, replaced, re-installed an
         'an exception — immediately or through a Deferred answered at a later position; targets include .exit names; ATTACHSTREAM answers accepted '
         'or rejected. Compared: every consultation of the attacher (which stream), every ATTACHSTREAM / SETCONF __LeaveStreamsUnattached line in '
         'order, every error reported, the installed attacher. The via-circuit attacher (_CircuitAttacher, source-port matching) and PriorityAttacher '
-        'are exercised by their own enumerated cases. non-trivial = at least 2 consultations; distinct = distinct cases')
+        'are exercised by their own enumerated cases; some of the connections made through a circuit have their SOCKS request left unanswered and then refused (before any stream of theirs is reported). non-trivial = at least 2 consultations; distinct = distinct cases')
 TRUSTED = ["as C07; the attacher is a recording double of IStreamAttacher; _attacher_error is replaced on the instance by a recorder (as the "
            "suite's own tests do); coroutine answers go through the same maybe_coroutine path as Deferred ones and are not generated separately"]
 ASSUMPTIONS = ["H: as C07"]
@@ -22,8 +22,9 @@ ASSUMPTIONS = ["H: as C07"]
 def tagger(c, im):
     asked = sum(1 for t in im for o in t['outs'] if o[0] == 'a')
     answers = sorted({(op[3] or 'later')[0] for op in c['ops'] if op[0] == 'strm' and len(op) > 3 and op[3]} | {'ans:' + op[2][0] for op in c['ops'] if op[0] == 'ans'})
-    vias = sum(1 for op in c['ops'] if op[0] == 'via')
-    return (answers + ['asked=%d' % min(asked, 3), 'via=%d' % min(vias, 3)]), (asked >= 2 or vias >= 2)
+    vias = sum(1 for op in c['ops'] if op[0] in ('via', 'viap'))
+    lost = sum(1 for op in c['ops'] if op[0] == 'vialost')
+    return (answers + ['asked=%d' % min(asked, 3), 'via=%d' % min(vias, 3), 'via-failed=%d' % min(lost, 2)]), (asked >= 2 or vias >= 2)
 
 
 def project(tr):
@@ -218,6 +219,12 @@ def corpus():
                  ['circ', '5 CLOSED %s PURPOSE=GENERAL REASON=FINISHED' % r1, []], new(1, None), ['ack', True], new(2, None), ['ack', True],
                  ['strm', '1 CLOSED 0 example.com:80 REASON=END', [], None], new(3, None).__class__(['strm', '3 NEW 0 example.com:80 SOURCE_ADDR=127.0.0.1:5001 PURPOSE=USER', [], None]),
                  ['ack', True], ['strm', '4 NEW 0 example.com:80 SOURCE_ADDR=127.0.0.1:5002 PURPOSE=USER', [], None]]},
+        # three concurrent connections through the same circuit (and one through another); the SOCKS side of one fails before any
+        # stream was reported: it fails once, and the streams of the others are still recognised and go to exactly their circuit
+        {'snap_c': ['5 BUILT %s PURPOSE=GENERAL' % r1, '6 BUILT %s PURPOSE=GENERAL' % r1], 'snap_s': [], 'pre': [],
+         'ops': [['att', 0], ['ack', True], ['via', 0, '127.0.0.1', 5001], ['viap', 0, '127.0.0.1', 5002], ['viap', 0, '127.0.0.1', 5003],
+                 ['via', 1, '127.0.0.1', 5004], ['vialost', '127.0.0.1', 5002], new(1, None), ['ack', True], new(4, None), ['ack', True],
+                 ['vialost', '127.0.0.1', 5003], new(2, None), ['ack', True], new(3, None), ['ack', True]]},
     ]
 
 
